@@ -3,7 +3,7 @@
    OCaml's own; N, positive, nat, ascii, string, comparison stay Coq datatypes. *)
 Require Extraction.
 Require ExtrOcamlBasic.
-From RC Require Import Base.Res Base.Wire Model.Enums Gen.EnumTables Gen.Merge Model.Open Model.Negotiate Gen.CmpChain Model.Select.
+From RC Require Import Base.Res Base.Wire Model.Enums Gen.EnumTables Gen.Merge Model.Open Model.Negotiate Gen.CmpChain Model.Select Model.Nlri Model.NlriOrd.
 Extraction Language OCaml.
 Set Extraction KeepSingleton.
 Extraction "../ocaml/model.ml"
@@ -15,4 +15,6 @@ Extraction "../ocaml/model.ml"
   Negotiate.live_session_config Negotiate.get_addpath Negotiate.rx_addpath Negotiate.addpath_families_vec
   Select.cmp_route Select.eligible Select.content_eqb Select.route_lt Select.best Select.best_backup
   Select.best_backup_idx Select.best_backup_generic
+  Wire.parser_of Nlri.parse_nlri Nlri.compose_nlri Nlri.compose_len Nlri.nlri_iter
+  NlriOrd.nlri_eqb NlriOrd.nlri_cmp NlriOrd.prefix_cmp NlriOrd.hash_input
   EnumTables.all_enum_widths EnumTables.all_enum_names.
